@@ -13,11 +13,13 @@
 EXTENDS Integers, Sequences
 
 MC_Models  == {"SIM", "TWO"}
+MC_Models0 == {}
 MC_Blocks  == {"A", "B"}
 MC_Solvers0 == {}
 MC_Solvers1 == {"s1"}
 MC_Solvers2 == {"s1", "s2"}
 MC_LogNames == {"log", "eqn", "timeseries", "step", "steadystate_0"}
+MC_Trace1 == {0}
 MC_Trace2 == {0, 1}
 MC_FuncBodies == {"f1", "f2"}
 MC_Trace3 == {0, 1, 3}
